@@ -90,36 +90,44 @@ type vDialer struct {
 	n    int
 }
 
-//verif:check C20 stubs=rt,timers,valuefile,abslog reach=handed-out,refused,end desc="connPool.getConn: a freshly dialled connection is handed out only if the peer answered the identity handshake with success; otherwise it is closed and an IdentityError returned" bounds="peer's reply: any term, any result byte; also truncated replies"
+//verif:check C20 stubs=rt,timers,valuefile,abslog reach=handed-out,refused,second-dial,end desc="connPool.getConn: every freshly dialled connection is handed out only if the peer answered the identity handshake with success on THAT connection; otherwise it is closed and an IdentityError returned. Two successive dials to the same resolved address (the first connection broke; whoever listens there now may be another node) are each verified" bounds="two dials; each peer reply: any term, any result byte; also truncated replies"
 func VH_C20_getConn() {
 	r := vLoopNode(Follower)
-	resp := &identityResp{resp{term: vU64("resp.term"), result: rpcResult(vU8("resp.result"))}}
-	vAssume(resp.result != unexpectedErr)
-	var w bytes.Buffer
-	if err := resp.encode(&w); err != nil {
-		panic(err)
-	}
-	script := w.Bytes()
-	if vChoice(2) == 1 {
-		script = script[:vChoice(len(script))] // the peer hangs up mid-reply
-	}
-	vc := &vConn{rd: script}
+	r.resolver.addrs[2] = vAddr(2) // a real, stable address: both dials resolve to it
 	pool := r.getConnPool(2)
-	pool.dialFn = func(network, address string, timeout time.Duration) (net.Conn, error) { return vc, nil }
-	c, err := pool.getConn(time.Now())
-	if err == nil {
-		vReach("handed-out")
-		vAssert(c != nil && !vc.closed, "G-connection-usable")
-		vAssert(len(script) == w.Len() && resp.result == success, "G-handed-out-only-after-successful-handshake")
-		// what was sent: an identity request naming the intended cluster and node
-		sent := vc.wr.Bytes()
-		vAssert(len(sent) > 0 && sent[0] == byte(rpcIdentity), "G-handshake-sent-first")
-		got := &identityReq{}
-		vAssert(got.decode(bytes.NewReader(sent[1:])) == nil && got.cid == r.cid && got.nid == 2 && got.src == r.nid, "G-handshake-names-intended-peer")
-	} else {
-		vReach("refused")
-		_, isIdErr := err.(IdentityError)
-		vAssert(isIdErr && vc.closed && c == nil, "G-refused-connection-is-closed")
+	for dialNo := 0; dialNo < 2; dialNo++ {
+		tag := string(rune('1' + dialNo))
+		resp := &identityResp{resp{term: vU64("resp.term" + tag), result: rpcResult(vU8("resp.result" + tag))}}
+		vAssume(resp.result != unexpectedErr)
+		var w bytes.Buffer
+		if err := resp.encode(&w); err != nil {
+			panic(err)
+		}
+		script := w.Bytes()
+		if vChoice(2) == 1 {
+			script = script[:vChoice(len(script))] // the peer hangs up mid-reply
+		}
+		vc := &vConn{rd: script}
+		pool.dialFn = func(network, address string, timeout time.Duration) (net.Conn, error) { return vc, nil }
+		c, err := pool.getConn(time.Now())
+		if err == nil {
+			vReach("handed-out")
+			vAssert(c != nil && !vc.closed, "G-connection-usable")
+			vAssert(len(script) == w.Len() && resp.result == success, "G-handed-out-only-after-successful-handshake")
+			// what was sent: an identity request naming the intended cluster and node
+			sent := vc.wr.Bytes()
+			vAssert(len(sent) > 0 && sent[0] == byte(rpcIdentity), "G-handshake-sent-first")
+			got := &identityReq{}
+			vAssert(len(sent) > 0 && got.decode(bytes.NewReader(sent[1:])) == nil && got.cid == r.cid && got.nid == 2 && got.src == r.nid, "G-handshake-names-intended-peer")
+		} else {
+			vReach("refused")
+			_, isIdErr := err.(IdentityError)
+			vAssert(isIdErr && vc.closed && c == nil, "G-refused-connection-is-closed")
+		}
+		if dialNo == 1 {
+			vReach("second-dial")
+		}
+		// the connection is not returned to the pool (it broke): the next request dials again
 	}
 	vReach("end")
 }
